@@ -209,6 +209,10 @@ pub fn canonical_raw(
     let mut w = quick_protobuf::Writer::new(&mut v);
     // Append fields in ascending tags order.
     for (num, mut values) in read_fields(buf, desc)? {
+        // An empty packed chunk carries no values: the field is absent.
+        if values.is_empty() {
+            continue;
+        }
         let fd = desc.get_field(num).unwrap();
         if values.len() > 1 && !fd.is_list() {
             anyhow::bail!("non-repeated field with multiple values");
